@@ -2,7 +2,7 @@ PROP = {'modules': ['Discv5Model.Props.C17', 'Discv5Model.Props.C17Service', 'Di
  'lemma_modules': ['Discv5Model.Proofs.IpVoteLemmas', 'Discv5Model.Proofs.ConnectivityLemmas', 'Discv5Model.Proofs.IpVoteFamily'],
  'engines': [{'name': 'ipvote', 'quick': 1000, 'thorough': 30000},
              {'name': 'service', 'quick': 80, 'thorough': 1500},
-             {'name': 'service', 'quick': 24, 'thorough': 300, 'model': False, 'profile': 'C17expiry'}],
+             {'name': 'service', 'quick': 24, 'thorough': 300, 'model': False, 'profile': 'C17expiry'}, {'name': 'service', 'quick': 16, 'thorough': 200, 'model': False, 'profile': 'C17race'}],
  'rule': 'ipvote engine: each case = one IpVote (minimum 2..6) driven by a vote sequence (voter, address) with majority() compared after (almost) every '
          'insert: random walks over a small voter population and 2-5 IPv4 / 2-3 IPv6 addresses; leader with n votes (n = minimum, minimum+1, random <= 40, or '
          'one of the counts 45/85/165/175/... where binary64 differs from (7n+5)/10) against a rival walking over thr(n)-2..thr(n)+1 and voters changing their '
